@@ -15,6 +15,9 @@ pub assume_specification<T> [bool::then_some] (b: bool, t: T) -> (r: Option<T>)
 pub assume_specification<T, F: FnOnce(T) -> bool> [Option::<T>::is_some_and] (o: Option<T>, f: F) -> (r: bool)
     requires o.is_some() ==> f.requires((o.unwrap(),))
     ensures o.is_none() ==> !r, o.is_some() ==> f.ensures((o.unwrap(),), r);
+pub assume_specification<T, F: FnOnce(T) -> bool> [Option::<T>::is_none_or] (o: Option<T>, f: F) -> (r: bool)
+    requires o.is_some() ==> f.requires((o.unwrap(),))
+    ensures o.is_none() ==> r, o.is_some() ==> f.ensures((o.unwrap(),), r);
 pub assume_specification<Idx> [std::ops::RangeInclusive::<Idx>::start] (r: &RangeInclusive<Idx>) -> (s: &Idx)
     ensures *s == r@.start;
 pub assume_specification<Idx> [std::ops::RangeInclusive::<Idx>::end] (r: &RangeInclusive<Idx>) -> (s: &Idx)
